@@ -155,10 +155,43 @@ LICREF_TEXTS = [
 ]
 
 
+_A, _B = ["AND", ["K", "MIT"], ["K", "0BSD"]], ["AND", ["K", "0BSD"], ["K", "MIT"]]
+FIXED_SPDX = [
+    # expressions that license-expression holds equal are one element of the set of a source; the same identifier from
+    # several sources is listed once per source; a blank REUSE.toml string is no notice; a string of two lines
+    {"flags": "00", "tree": [
+        ["a.py", ["f", {"t": "text", "style": "py", "cop": ["SPDX-FileCopyrightText: 2020 X", "SPDX-FileCopyrightText: 2020 X"], "lic": [_A, _B, ["K", "MIT"]]}]],
+        ["b.py", ["f", {"t": "text", "style": "py", "cop": [], "lic": []}]],
+        ["REUSE.toml", ["f", {"t": "toml", "tables": [
+            {"globs": ["**"], "prec": "aggregate", "cop": ["SPDX-FileCopyrightText: 2020 X", "", "2019 Y", "two\nlines"], "lic": [_B, _A, ["K", "MIT"]]}]}]],
+        ["LICENSES", ["d", [["MIT.txt", ["f", {"t": "raw", "s": "x\n"}]], ["0BSD.txt", ["f", {"t": "raw", "s": "x\n"}]],
+                            ["LicenseRef-a.txt", ["f", {"t": "raw", "s": "no line end"}]]]]]]},
+    # a sibling replaces the file as the source of information but never as the object of the checksum; an unreadable sibling
+    {"flags": "00", "tree": [
+        ["img.png", ["f", {"t": "bin", "tags": True}]],
+        ["img.png.license", ["f", {"t": "text", "style": "txt", "cop": ["SPDX-FileCopyrightText: 2001 Z"], "lic": [["K", "LicenseRef-a"]]}]],
+        ["c.txt", ["f", {"t": "text", "style": "txt", "cop": ["SPDX-FileCopyrightText: 2001 Z"], "lic": [["K", "MIT"]]}]],
+        ["c.txt.license", ["d", [["inner.txt", ["f", {"t": "raw", "s": "x\n"}]]]]],
+        ["LICENSES", ["d", [["MIT.txt", ["f", {"t": "raw", "s": "x\n"}]], ["sub", ["d", [["LicenseRef-a.txt", ["f", {"t": "hex", "h": "ff0d0a0dfe"}]]]]]]]]]},
+]
+
+
+def mirror(e):
+    return [e[0], e[2], e[1]] if e[0] in ("AND", "OR") else e
+
+
 def spdx_variant(rng, proj):
     """the e2e-model project with LicenseRef- texts worth reading: several lines, CR / CRLF, bytes that are not UTF-8, empty;
     a LicenseRef- text no file uses"""
     tree = proj["tree"]
+    # the same expression written with its operands the other way round: one element of the source's set of expressions
+    for p, node in e2e.walk_nodes(tree):
+        if node[0] == "f" and node[1]["t"] == "text" and rng.random() < 0.15:
+            node[1]["lic"] = list(node[1].get("lic", [])) + [mirror(e) for e in node[1].get("lic", []) if e[0] in ("AND", "OR")]
+        if node[0] == "f" and node[1]["t"] == "toml" and rng.random() < 0.3:
+            for t in node[1]["tables"]:
+                if t.get("lic"):
+                    t["lic"] = list(t["lic"]) + [mirror(e) for e in t["lic"] if e[0] in ("AND", "OR")]
     ln = e2e.node_at(tree, "LICENSES")
     if ln is not None and ln[0] == "d":
         for p, node in e2e.walk_nodes(ln[1]):
@@ -215,8 +248,8 @@ class SpdxE2EStream(Stream):
         import c18
         n = {"quick": 170, "thorough": 1700}[tier]
         out = []
-        for _ in range(n):
-            proj = spdx_variant(rng, e2e.gen_case(rng))
+        for k in range(n):
+            proj = json.loads(json.dumps(FIXED_SPDX[k])) if k < len(FIXED_SPDX) else spdx_variant(rng, e2e.gen_case(rng))
             runs = []
             for key in (rng.choice(NONADD), "add-alone" if rng.random() < 0.08 else rng.choice(ADD)):
                 cwd = some_dir(rng, proj["tree"]) if rng.random() < 0.4 else ""
@@ -295,7 +328,7 @@ class SpdxE2EStream(Stream):
                 res["runs"].append({"status": o})
             elif o.startswith("doc:"):
                 _, ok, t = o.split(":", 2)
-                res["runs"].append({"status": "ok", "doc": dec(t), "docOk": ok == "1"})
+                res["runs"].append({"status": "ok", "doc": dec(t), "docOk": ok[:1] == "1", "keysRespectEq": ok[1:2] == "1"})
             else:
                 res["runs"].append({"status": "MODEL:" + o[:200]})
         return json.dumps(res, sort_keys=True, ensure_ascii=True)
@@ -314,6 +347,10 @@ class SpdxE2EStream(Stream):
                 return False
             if ra["status"] != "ok":
                 continue
+            if not rb.get("keysRespectEq"):
+                # the oracle hypothesis of C18_e2e_file_report (expressions that license-expression holds equal mention the
+                # same identifiers) fails on the library's own answers: the theorem would not speak about this project
+                return False
             la, lb = ra["doc"].split("\n"), rb["doc"].split("\n")
             if len(la) != len(lb):
                 return False
@@ -416,9 +453,10 @@ class SpdxE2EStream(Stream):
             cop = d["FileCopyrightText"][0]
             if want_c:
                 got_c = cop.split("\n")
-                if sorted(set(got_c)) != want_c:
+                # (a REUSE.toml string may itself hold several lines: compared as the lines of the joined text)
+                if sorted(set(got_c)) != sorted({l for v in want_c for l in v.split("\n")}):
                     return "copyright: %r has %r, the sources and precedence rules attribute %r" % (path, cop, want_c)
-                if got_c != sorted(got_c):
+                if got_c != sorted(got_c) and not any("\n" in v for v in want_c):
                     return "copyright: %r: lines not sorted: %r" % (path, got_c)
             elif cop != "NONE":
                 return "copyright: %r has %r but no notice is attributed to it" % (path, cop)
